@@ -300,10 +300,12 @@ theorem header_ignoreless {endRe : Re} {s : Style} {m : LineMode} {A C L : List 
     · exact (calm_elim hc).2.1
   · exact quiet_ignoreless p (sf.frame p (List.mem_append_right _ hp)).1
 
-theorem header_lic (endRe : Re) (hnil : Matches endRe []) (hcs : canStart endRe '\n' = false)
-    (hnull : nullable endRe = true) {s : Style} {m : LineMode} {A C L : List Text} (sf : StyleFacts s m)
+theorem header_lic_shape (endRe : Re) {s : Style} {m : LineMode} {A C L : List Text} (sf : StyleFacts s m)
     (rq : ReqOK endRe s m A C L) :
-    findSpdxTagWith endRe Generated.licenseTag (join ['\n'] (headerLines s m (bodyLines A C L))) = L := by
+    ∃ F1 F2, headerLines s m (bodyLines A C L) =
+        F1 ++ L.map (fun v => linePrefix s m ++ Generated.licenseTag ++ ' ' :: v) ++ F2 ∧
+      (∀ l ∈ F1, tagFreeLine Generated.licenseTag l = true) ∧ (∀ l ∈ F2, tagFreeLine Generated.licenseTag l = true) ∧
+      (∀ v ∈ L, (TLine.val (linePrefix s m) v).ok endRe Generated.licenseTag) := by
   have e : headerLines s m (bodyLines A C L) =
       (openLines s m ++ ((A ++ C.map conLine) ++ gap (A ++ C.map conLine) (L.map licLine)).map (physLine s m)) ++
         L.map (fun v => linePrefix s m ++ Generated.licenseTag ++ ' ' :: v) ++ closeLines s m := by
@@ -314,8 +316,7 @@ theorem header_lic (endRe : Re) (hnil : Matches endRe []) (hcs : canStart endRe 
       intro v _
       exact physLine_val s m Generated.licenseTag v
     simp only [headerLines, bodyLines, List.map_append, e1, List.append_assoc]
-  rw [e]
-  apply findTag_sandwich endRe _ (by decide) hnil hcs hnull
+  refine ⟨_, _, e, ?_, ?_, ?_⟩
   · intro p hp
     rcases List.mem_append.mp hp with hp | hp
     · exact quiet_tagFree licTag_spdx p (sf.frame p (List.mem_append_left _ hp)).1
@@ -333,10 +334,21 @@ theorem header_lic (endRe : Re) (hnil : Matches endRe []) (hcs : canStart endRe 
   · intro v hv
     exact valOK_tline sf licTag_spdx (rq.hL v hv)
 
-theorem header_con (endRe : Re) (hnil : Matches endRe []) (hcs : canStart endRe '\n' = false)
+
+theorem header_lic (endRe : Re) (hnil : Matches endRe []) (hcs : canStart endRe '\n' = false)
     (hnull : nullable endRe = true) {s : Style} {m : LineMode} {A C L : List Text} (sf : StyleFacts s m)
     (rq : ReqOK endRe s m A C L) :
-    findSpdxTagWith endRe Generated.contributorTag (join ['\n'] (headerLines s m (bodyLines A C L))) = C := by
+    findSpdxTagWith endRe Generated.licenseTag (join ['\n'] (headerLines s m (bodyLines A C L))) = L := by
+  obtain ⟨F1, F2, e, h1, h2, hV⟩ := header_lic_shape endRe sf rq
+  rw [e]
+  exact findTag_sandwich endRe _ (by decide) hnil hcs hnull _ F1 L F2 h1 h2 hV
+
+theorem header_con_shape (endRe : Re) {s : Style} {m : LineMode} {A C L : List Text} (sf : StyleFacts s m)
+    (rq : ReqOK endRe s m A C L) :
+    ∃ F1 F2, headerLines s m (bodyLines A C L) =
+        F1 ++ C.map (fun v => linePrefix s m ++ Generated.contributorTag ++ ' ' :: v) ++ F2 ∧
+      (∀ l ∈ F1, tagFreeLine Generated.contributorTag l = true) ∧ (∀ l ∈ F2, tagFreeLine Generated.contributorTag l = true) ∧
+      (∀ v ∈ C, (TLine.val (linePrefix s m) v).ok endRe Generated.contributorTag) := by
   have e : headerLines s m (bodyLines A C L) =
       (openLines s m ++ A.map (physLine s m)) ++
         C.map (fun v => linePrefix s m ++ Generated.contributorTag ++ ' ' :: v) ++
@@ -348,8 +360,7 @@ theorem header_con (endRe : Re) (hnil : Matches endRe []) (hcs : canStart endRe 
       intro v _
       exact physLine_val s m Generated.contributorTag v
     simp only [headerLines, bodyLines, List.map_append, e1, List.append_assoc]
-  rw [e]
-  apply findTag_sandwich endRe _ (by decide) hnil hcs hnull
+  refine ⟨_, _, e, ?_, ?_, ?_⟩
   · intro p hp
     rcases List.mem_append.mp hp with hp | hp
     · exact quiet_tagFree conTag_spdx p (sf.frame p (List.mem_append_left _ hp)).1
@@ -368,6 +379,15 @@ theorem header_con (endRe : Re) (hnil : Matches endRe []) (hcs : canStart endRe 
         (sf.frame p (List.mem_append_right _ hp)).2.1
   · intro v hv
     exact valOK_tline sf conTag_spdx (rq.hC v hv)
+
+
+theorem header_con (endRe : Re) (hnil : Matches endRe []) (hcs : canStart endRe '\n' = false)
+    (hnull : nullable endRe = true) {s : Style} {m : LineMode} {A C L : List Text} (sf : StyleFacts s m)
+    (rq : ReqOK endRe s m A C L) :
+    findSpdxTagWith endRe Generated.contributorTag (join ['\n'] (headerLines s m (bodyLines A C L))) = C := by
+  obtain ⟨F1, F2, e, h1, h2, hV⟩ := header_con_shape endRe sf rq
+  rw [e]
+  exact findTag_sandwich endRe _ (by decide) hnil hcs hnull _ F1 C F2 h1 h2 hV
 
 /-- the per-line reader of copyright notices -/
 def cprOf (endRe : Re) (l : Text) : Option Text := (searchLineWith endRe l).map fun x => strip x.whole
